@@ -36,8 +36,8 @@ class C08(Prop):
     reach_required = ['reader.read_spacer', 'reader.read_arg_required', 'reader.read_arg_optional', 'reader.read_env', 'tokens.tokenize_string']
     min_nontrivial = 2000
     budget_s = {'quick': 240, 'thorough': 3600}
-    exhaustive = {'quick': 'all strings of <= 2 tokens over the 68-token alphabet (inside the domain)',
-                  'thorough': 'all strings of <= 3 tokens over the 68-token alphabet (inside the domain)'}
+    exhaustive = {'quick': 'all strings of <= 2 tokens over the 70-token alphabet (inside the domain)',
+                  'thorough': 'all strings of <= 3 tokens over the 70-token alphabet (inside the domain)'}
 
     def cases(self, tier, seed, want):
         yield from common.string_cases(tier, seed, want, 'c08')
